@@ -126,6 +126,18 @@ def run(prop, repo, seed=0):
             new = [(tuple(k), msg) for k, msg in payload if tuple(k) not in base]
             new_rules = {k[1] for k, _ in new}
         case["new_findings"] = [f"{k[1] if isinstance(k, tuple) else k}: {msg}"[:200] for k, msg in new][:4]
+        if kind == "repair":
+            # a repaired scratch copy: the (known) findings of the named rule must vanish and nothing new appear
+            res.setdefault("repairs", 0)
+            res.setdefault("repairs_silent", 0)
+            res["repairs"] += 1
+            remaining = [k for k, _ in payload if k[1] == m["gone"]] if status == "ok" else ["analysis-error"]
+            if not remaining and not new:
+                res["repairs_silent"] += 1
+            else:
+                res["problems"].append(f"repair:{m['name']}: rule {m['gone']} still reports {remaining or new} on the repaired variant")
+            res["cases"].append(case)
+            continue
         if kind == "twin":
             res["twins"] += 1
             if not new:
